@@ -196,7 +196,9 @@ static void Thread_Assign(var self, var obj) {
 }
 
 static int Thread_Cmp(var self, var obj) {
-  return (int)(Thread_C_Int(self) - c_int(obj));
+  int64_t a = Thread_C_Int(self);
+  int64_t b = c_int(obj);
+  return a < b ? -1 : a > b ? 1 : 0;
 }
 
 static uint64_t Thread_Hash(var self) {
